@@ -124,6 +124,7 @@ func init() {
 			{Name: "VH_C17_signing_context_race", Replay: "race", Unwind: 2000, QuickOnly: true},
 			{Name: "VH_C17_signing_context_race_deep", Replay: "race", Unwind: 2000, Thorough: true},
 			{Name: "VH_C17_isolation", Replay: "native", Unwind: 2000},
+			{Name: "VH_C17_no_shared_writes", Replay: "native", Unwind: 2000},
 			{Name: "VH_C17_validation_pure", Replay: "native", Unwind: 400},
 			{Name: "VH_C07_decrypt_cert", Replay: "native"},
 			{Name: "VH_C13_sign_is_pure", Replay: "native", Unwind: 2000},
